@@ -313,7 +313,12 @@ elif mode == 'extedit':
 def file_hashes(d):
     out = {}
     for f in sorted(glob.glob(os.path.join(d, '*.py'))):
-        out[os.path.basename(f)] = hashlib.sha1(open(f, 'rb').read()).hexdigest()
+        data = open(f, 'rb').read()
+        if os.path.basename(f) == '__init__.py':
+            # the package file starts with `__version__ = '<andes.__version__>'`, which versioneer derives from
+            # `git describe --dirty` at import time: a stamp of the checkout, not code generated from the models
+            data = b'\n'.join(ln for ln in data.split(b'\n') if not ln.startswith(b'__version__'))
+        out[os.path.basename(f)] = hashlib.sha1(data).hexdigest()
     return out
 
 
